@@ -71,6 +71,11 @@ CLAIMED = {
          "Theorems hold for every batch block, resource dictionary (any value types) and command text. Full-strength 'never fails / exactly the declared resources' is proved for Slurm (header exactness, never-fails without bracketed tokens, clean rejection with them); the launcher-loop theorem covers all adapters; LSF and Flux headers are modelled and tied by correspondence and the monitor but carry no exactness theorem, and five combination-specific defects are known findings with Lean witnesses (LSF needs nodes and procs, LSF [Pp] token, [Nn] token, Flux nodes-only, LSF empty directives). Five other defects were repaired ('fix:' commits).",
          "Trusted: Lean kernel; standard axioms; the correspondence harness (real adapters, fake flux module for version/handle only); Python str.format/str()/int()/float() modelled for the decimal ASCII spellings the generators produce (fractional Flux walltimes and non-ASCII digits are outside the model); regular expressions of schedulerscriptadapter.py modelled by hand (findAllocs, hasLegacy, digitsBefore) and validated by the correspondence.",
          "DESIGN.md §6 C15"),
+ "C13": ("proof",
+         "the four JSON schemas regenerated from yamlspecification.json as Lean terms on every run + Lean 4 model of load/verify/convert/Study construction (Model/Spec.lean, schema evaluator for the keywords used) + theorems: accept-soundness (accepted => schema-valid sections with their proved consequences, >=1 step, distinct names, no self/undefined dependency, equal parameter lengths), characterisation of every internal-error source, accepted steps = document steps, priority names understood (decide over regenerated tables), proved counterexamples + structural-mutation correspondence with the real load -> environment -> steps -> parameters -> Study path, Draft7-validity correspondence per section, independent rule oracle / staging monitor",
+         "Accept-soundness and the internal-error characterisation are theorems for every document (any tree of mappings, lists and scalars); schema consequences are re-proved against the regenerated schema term, so weakening the schema file breaks a proof. 'Never an internal error' is false without hypotheses: three sources remain (known findings with Lean witnesses: _verify_dependencies on spack/git/path blocks, non-string sources, a step named _source); nine other defects were repaired ('fix:' commits). Usability after acceptance (conversion, Study, staging) is decided by the correspondence and the staging monitor on the real code; staging itself is C08's model.",
+         "Trusted: Lean kernel; standard axioms; the translator (unsupported schema constructs are listed in Gen/Schema and must be proved empty); PyYAML parsing (documents are compared as parsed trees: duplicate mapping keys are collapsed by the loader before the code sees them; non-string keys and floats that are not multiples of 0.1 are outside the model); jsonschema Draft7 semantics modelled for the keywords used and validated per section on every run; file-system dependent failures (a dependency path that does not exist) are outside the model.",
+         "DESIGN.md §6 C13"),
  "C14": ("proof",
          "Lean 4 theorems over Model/Dag.lean (acyclicity invariant, DFS cycle-detection soundness/completeness, toposort, BFS/DFS exactness, fuel sufficiency) + operation-sequence correspondence with the real DAG class + property monitor",
          "Machine-checked theorems for all operation sequences and all graphs over a hand-written model of dag.py; the model is tied to the code on every run by a differential run (random + bounded-exhaustive operation sequences, state compared after every operation) and the property is also monitored directly on the real graph.",
